@@ -3,9 +3,11 @@ CONSTANTS
   Threads = {1, 2, 3}
   CompilerScope = "per execution"
   ColumnMemo = "none"
+  ParserScope = "per call"
+  ScanMemo = "none"
   JobSet = "fixed"
 INIT InitFixed
 NEXT Next
-INVARIANTS TypeOK SerialInv OwnParameters OwnRow
+INVARIANTS TypeOK SerialInv OwnParameters OwnRow OwnStatement
 PROPERTIES NonInterference NoSharedState JobConstant
 CHECK_DEADLOCK FALSE
